@@ -65,7 +65,7 @@ class GEXTest:
             # Parse the server's KEX.
             _, payload = s.read_packet(2)
             SSH2_Kex.parse(out, payload)
-        except Exception:  # Any error while parsing a misbehaving server's reply only fails this probe, not the whole audit.
+        except (Exception, SystemExit):  # Any error while parsing a misbehaving server's reply (including read_packet() terminating on a framing error) only fails this probe, not the whole audit.
             out.v("Failed to parse server's kex.  Stack trace:\n%s" % str(traceback.format_exc()), write_now=True)
             return False
 
@@ -227,7 +227,7 @@ class GEXTest:
                 kex_group.recv_reply(s, False)
                 smallest_modulus = kex_group.get_dh_modulus_size()
                 out.d('GEXTest._send_init(%s, %u, %u, %u): received modulus size: %d' % (gex_alg, min_bits, pref_bits, max_bits, smallest_modulus), write_now=True)
-        except Exception as e:  # Any error while talking to (or parsing the reply of) a misbehaving server only fails this probe, not the whole audit.
+        except (Exception, SystemExit) as e:  # Any error while talking to (or parsing the reply of) a misbehaving server (including read_packet() terminating on a framing error) only fails this probe, not the whole audit.
             out.d('GEXTest._send_init(%s, %u, %u, %u): exception when performing DH group exchange init: %s' % (gex_alg, min_bits, pref_bits, max_bits, str(e)), write_now=True)
         finally:
             s.close()
